@@ -367,6 +367,14 @@ def perturbations(s, rng):
         l3 = list(lines)
         l3.insert(i + 1, rng.choice(["", "   ", "\t", "# only a comment", "        # indented comment"]))
         yield "blank-line", "\n".join(l3)
+    # a form feed in the leading white space of a code line resets the indentation column (CPython's tokenizer): page breaks
+    # before a def / between methods, or in front of an indented line
+    code_lines = [j for j, l in enumerate(lines) if l.strip() and not l.lstrip().startswith("#")]
+    if code_lines:
+        j = rng.choice(code_lines)
+        l4 = list(lines)
+        l4[j] = "\f" + l4[j]
+        yield "formfeed-indent", "\n".join(l4)
     # redundant parentheses around one sub-expression
     try:
         tree = cparse(s, "exec")
